@@ -766,6 +766,9 @@ class Interp:
                     return getattr(base, n.attr)
                 except AttributeError:
                     raise ExcRaised(Ref('builtin:AttributeError'))
+            if isinstance(base, (list, dict, set, str, tuple, frozenset)) and not isinstance(n.ctx, ast.Store) and hasattr(type(base), n.attr) \
+                    and callable(getattr(type(base), n.attr)) and not n.attr.startswith('__'):
+                return NativeMethod(base, n.attr)       # a bound method of a native container taken as a value (`append = out.append`)
             try:
                 return self.a.folder.fold(n, self.m, None, self.self_class)
             except Unfoldable:
@@ -780,7 +783,18 @@ class Interp:
         if isinstance(n, ast.Set):
             return set(self.ev(e) for e in n.elts)
         if isinstance(n, ast.Dict):
-            return {self.ev(k): self.ev(v) for k, v in zip(n.keys, n.values)}
+            out_ = {}
+            for k, v in zip(n.keys, n.values):
+                if k is None:           # {**mapping}
+                    mp_ = self.ev(v)
+                    if isinstance(mp_, Rec) and '__native__' in mp_.f:
+                        mp_ = mp_.f['__native__']
+                    if not isinstance(mp_, dict):
+                        raise Unmodelled('** of a symbolic mapping in a dict display')
+                    out_.update(mp_)
+                else:
+                    out_[self.ev(k)] = self.ev(v)
+            return out_
         if isinstance(n, ast.BoolOp):
             res = None
             for v in n.values:
@@ -982,7 +996,7 @@ class Interp:
                 return Opaque(f'{recv.label}.{fn.attr}()')
             if isinstance(recv, Rec) and 'cls' in recv.f and isinstance(recv.f['cls'], str) and self.depth < self.max_depth \
                     and not (isinstance(fn.value, ast.Name) and fn.value.id in self.effects):
-                if fn.attr in recv.f and isinstance(recv.f[fn.attr], (LambdaVal, BoundMethod, PyModel, Ref)):
+                if fn.attr in recv.f and isinstance(recv.f[fn.attr], (LambdaVal, BoundMethod, PyModel, Ref, RawFunc, Closure, Partial)):
                     return self.invoke(recv.f[fn.attr], args, kwargs)
                 key_ = f"{recv.f['cls']}.{fn.attr}"
                 if key_ in self.call_models:
@@ -1035,7 +1049,7 @@ class Interp:
                     return getattr(recv, fn.attr)(*args)
                 except (ValueError, TypeError, IndexError, ZeroDivisionError, OverflowError) as exc:
                     raise ExcRaised(Ref(f'builtin:{type(exc).__name__}'))
-            if isinstance(recv, dict) and fn.attr in ('get', 'items', 'keys', 'values', 'setdefault', 'pop', 'clear', 'copy'):
+            if isinstance(recv, dict) and fn.attr in ('get', 'items', 'keys', 'values', 'setdefault', 'pop', 'clear', 'copy', 'popitem', 'fromkeys'):
                 try:
                     res = getattr(recv, fn.attr)(*args)
                 except KeyError:
@@ -1075,7 +1089,7 @@ class Interp:
             callee = self._safe_ev(fn)
             if isinstance(callee, Ref):
                 ref = callee.ref
-            elif isinstance(callee, (BoundMethod, LambdaVal, Closure, RawFunc, Partial)) or (isinstance(callee, PyModel) and callable(callee)):
+            elif isinstance(callee, (BoundMethod, LambdaVal, Closure, RawFunc, Partial, NativeMethod)) or (isinstance(callee, PyModel) and callable(callee)):
                 return self.invoke(callee, args, kwargs)
             elif isinstance(callee, Rec) and isinstance(callee.f.get('cls'), str) and self._find_method(callee.f['cls'], '__call__')[1] is not None:
                 return self.invoke(callee, args, kwargs)
@@ -1093,7 +1107,7 @@ class Interp:
                 ref = bound.ref
             elif callable(bound) and isinstance(bound, PyModel):
                 return bound(*args, **kwargs)
-            elif isinstance(bound, (BoundMethod, Closure, RawFunc, Partial)):
+            elif isinstance(bound, (BoundMethod, Closure, RawFunc, Partial, NativeMethod)):
                 return self.invoke(bound, args, kwargs)
             elif isinstance(bound, Rec) and isinstance(bound.f.get('cls'), str) and self._find_method(bound.f['cls'], '__call__')[1] is not None:
                 return self.invoke(bound, args, kwargs)
@@ -1426,6 +1440,15 @@ class Interp:
             sub.env.update(dict(zip(params, args)))
             sub.env.update(kwargs)
             return sub.ev(callee.node.body)
+        if isinstance(callee, NativeMethod):
+            node_ = ast.parse(f'__recv.{callee.name}(*__a, **__k)', mode='eval').body
+            saved_ = dict(self.env)
+            self.env.update({'__recv': callee.obj, '__a': tuple(args), '__k': dict(kwargs)})
+            try:
+                return self.ev(node_)
+            finally:
+                self.env.clear()
+                self.env.update(saved_)
         if isinstance(callee, PyModel) and callable(callee):
             return callee(*args, **kwargs)
         if isinstance(callee, Closure):
@@ -1648,6 +1671,11 @@ class Interp:
         if not isinstance(ref, str) or not ref.startswith('builtin:') or ref.count('.') != 1 or not args:
             return False, None
         tname, _, mname = ref[8:].partition('.')
+        if (tname, mname) == ('dict', 'fromkeys') and not kwargs and 1 <= len(args) <= 2 and not isinstance(args[0], (Rec, Ref, Opaque)):
+            try:
+                return True, dict.fromkeys(*args)
+            except TypeError:
+                raise ExcRaised(Ref('builtin:TypeError'))
         typ = {'dict': dict, 'list': list, 'set': set, 'tuple': tuple, 'str': str, 'frozenset': frozenset}.get(tname)
         if typ is None or not hasattr(typ, mname):
             return False, None
@@ -1669,6 +1697,31 @@ class Interp:
             res = list(res)
         return True, res
 
+    def _class_body_env(self, cref, expr, depth=0):
+        """Names of the class body that a class-level expression mentions: functions of the body are plain functions there
+        (`TABLE = {'x': _handler}`), other attributes their values."""
+        env = {}
+        if depth > 3:
+            return env
+        for nm in {x.id for x in ast.walk(expr) if isinstance(x, ast.Name)}:
+            cm_, node_ = self.a.res.class_attr(cref, nm)
+            if node_ is None or node_ is expr:
+                continue
+            if isinstance(node_, ast.FunctionDef):
+                defref_ = self._def_class_of(cm_, node_) or cref
+                if self._decorated(node_, 'staticmethod') or self._decorated(node_, 'classmethod') or self._decorated(node_, 'property'):
+                    continue
+                fn_ = RawFunc(f'{defref_}.{nm}', cm_, node_)
+                fn_.self_class = cref
+                env[nm] = fn_
+            elif isinstance(node_, ast.expr):
+                try:
+                    env[nm] = Interp(self.a, cm_, self._class_body_env(cref, node_, depth + 1), world=self.world, call_models=self.call_models,
+                                     inline_pkg=True, depth=self.depth + 1).ev(node_)
+                except (Unmodelled, ExcRaised):
+                    pass
+        return env
+
     def _class_callable(self, cref, name):
         """A class attribute that is not a `def` but evaluates to a function value (`__add__ = _arithmetic(operator.add)`,
         `__lt__ = functools.partialmethod(...)`-like tables): usable as a method. Evaluated once per world, in module scope."""
@@ -1683,8 +1736,8 @@ class Interp:
             return cache[key]
         if isinstance(node, (ast.Call, ast.Lambda, ast.Subscript, ast.Attribute)):
             try:
-                v = Interp(self.a, cm, {}, world=self.world, call_models=self.call_models, isinstance_fn=self.isinstance_fn, inline_pkg=True,
-                           depth=self.depth + 1).ev(node)
+                v = Interp(self.a, cm, self._class_body_env(cref, node), world=self.world, call_models=self.call_models,
+                           isinstance_fn=self.isinstance_fn, inline_pkg=True, depth=self.depth + 1).ev(node)
             except (Unmodelled, ExcRaised):
                 v = None
             fn_ref = isinstance(v, Ref) and isinstance(self.a.res.lookup(v.ref)[1], ast.FunctionDef)
@@ -1757,7 +1810,8 @@ class Interp:
                     raise Unfoldable('result of a library call')
             except Unfoldable:
                 # a class-level expression the folder does not know (re.compile(...), a comprehension): interpreted once per world
-                v_ = Interp(self.a, cm_, {}, world=self.world, call_models=self.call_models, inline_pkg=True, depth=self.depth + 1).ev(val_)
+                v_ = Interp(self.a, cm_, self._class_body_env(cref, val_), world=self.world, call_models=self.call_models, inline_pkg=True,
+                            depth=self.depth + 1).ev(val_)
                 for cm2_, cnode2_ in self.a.res.mro(cref):
                     if any(isinstance(st_, ast.Assign) and any(isinstance(t_, ast.Name) and t_.id == attr for t_ in st_.targets)
                            for st_ in cnode2_.body):
@@ -2511,6 +2565,8 @@ def _has_call_ref(v, depth=0):
     """Does a folded container hold the folder's symbolic stand-in for the result of a library call (Ref('ext:f(...)'))?"""
     if isinstance(v, Ref):
         return '(' in v.ref
+    if isinstance(v, Obj):
+        return True         # the folder's stand-in for an instance of a package class: the interpreter builds the real one
     if depth < 4 and isinstance(v, dict):
         return any(_has_call_ref(k, depth + 1) or _has_call_ref(x, depth + 1) for k, x in v.items())
     if depth < 4 and isinstance(v, (list, tuple, set, frozenset)):
@@ -2707,6 +2763,14 @@ def _signature_of(self, func):
 Interp._effective_decorators = _effective_decorators
 Interp._func_object = _func_object
 Interp._signature_of = _signature_of
+
+
+class NativeMethod(PyModel):
+    """`obj.method` of a native container / string taken as a value; calling it goes through the interpreter's own rules for that
+    method (so that abstract instances inside the container keep their semantics)."""
+
+    def __init__(self, obj, name):
+        self.obj, self.name = obj, name
 
 
 class _Suppress(PyModel):
